@@ -48,7 +48,7 @@ def invocations(w):
                     argv.append("-obj_size=" + z_opt)
                 add("storeobject " + " ".join(x.split("=")[0] + "=" + x.split("=", 1)[1][:12] for x in argv[3:]), argv,
                     lambda w, s, a=a_val, ck=ck, ca=ca, z=z_val: s.store_object(pid, src, a, ck, ca, z), kind)
-    for f in (None, "c", "bc", " "):
+    for f in (None, "c", "bc", " ", ""):
         argv = ["-storemetadata", "-pid=" + pid, "-path=" + doc] + (["-formatid=" + f] if f is not None else [])
         add("storemetadata formatid=%r" % f, argv, lambda w, s, f=f: s.store_metadata(pid, doc, f))
         argv = ["-retrievemetadata", "-pid=" + pid] + (["-formatid=" + f] if f is not None else [])
